@@ -18,20 +18,20 @@ var Global sync.Mutex
 
 // Scenario is a replayable description of one controlled run.
 type Scenario struct {
-	Kind        string      `json:"kind"`
-	Actors      [][]Op      `json:"actors"`
-	Sessions    int         `json:"sessions,omitempty"`
-	AllowCancel bool        `json:"cancel,omitempty"`
-	AllowStore  bool        `json:"store,omitempty"`
-	Schedule    []Choice    `json:"schedule,omitempty"`
-	Shared      bool        `json:"shared,omitempty"` // one session used by two actors
-	MinOplog    int         `json:"minOplog,omitempty"`
-	MaxOplog    int         `json:"maxOplog,omitempty"`
-	Preload     int         `json:"preload,omitempty"`  // writes before the scenario (old events, see watch)
-	EmptyStart  bool        `json:"empty,omitempty"`    // do not seed the counter document (oplog starts empty)
-	Watch       bool        `json:"watch,omitempty"`    // record oplog snapshots for the C09 monitors
-	Free        bool        `json:"free,omitempty"`     // free-running stress
-	FreeFor     int         `json:"freeMs,omitempty"`   //
+	Kind        string   `json:"kind"`
+	Actors      [][]Op   `json:"actors"`
+	Sessions    int      `json:"sessions,omitempty"`
+	AllowCancel bool     `json:"cancel,omitempty"`
+	AllowStore  bool     `json:"store,omitempty"`
+	Schedule    []Choice `json:"schedule,omitempty"`
+	Shared      bool     `json:"shared,omitempty"` // one session used by two actors
+	MinOplog    int      `json:"minOplog,omitempty"`
+	MaxOplog    int      `json:"maxOplog,omitempty"`
+	Preload     int      `json:"preload,omitempty"` // writes before the scenario (old events, see watch)
+	EmptyStart  bool     `json:"empty,omitempty"`   // do not seed the counter document (oplog starts empty)
+	Watch       bool     `json:"watch,omitempty"`   // record oplog snapshots for the C09 monitors
+	Free        bool     `json:"free,omitempty"`    // free-running stress
+	FreeFor     int      `json:"freeMs,omitempty"`  //
 }
 
 // Viol is a monitor failure (converted to run.Violation by the streams).
